@@ -25,6 +25,12 @@ def BIG : Nat := 100000000
 structure Widths where
   rw : Char → Nat
   disp : Char → Text
+  /-- the scroll code measures a character as it is drawn (`get_display_width`, proposed fix
+      C11-control-char-width) instead of with `get_cwidth`; probed from the current tree -/
+  dm : Bool := false
+  /-- `get_height_for_line` wraps lines whose cells are not all one column wide character by
+      character (proposed fix C11-wide-wrap-height); probed from the current tree -/
+  exact : Bool := false
 
 /-- `get_cwidth(s)` : sum over the characters -/
 def textWidth (W : Widths) : Text → Nat
@@ -33,6 +39,14 @@ def textWidth (W : Widths) : Text → Nat
 
 /-- `Char(c).width` -/
 def cellW (W : Widths) (c : Char) : Nat := textWidth W (W.disp c)
+
+/-- width of one character as the scroll code measures it -/
+def measure (W : Widths) (c : Char) : Nat := if W.dm then cellW W c else W.rw c
+
+/-- width of a text as the scroll code measures it (`get_cwidth` / `get_display_width`) -/
+def measWidth (W : Widths) : Text → Nat
+  | [] => 0
+  | c :: cs => measure W c + measWidth W cs
 
 /-! ## processors -/
 
@@ -146,13 +160,25 @@ def heightLoop (pw : Nat → Nat) (width : Nat) : Nat → Nat → Nat → Nat
       else heightLoop pw width fuel (tw - width + pw h) (h + 1)
     else h
 
+/-- `_wrapped_height` (proposed fix): wrap the cells exactly like `copy_line` does -/
+def wrappedHeight (pw : Nat → Nat) (width : Nat) : List Nat → Nat → Nat → Nat
+  | [], _, h => h
+  | cw :: rest, x, h =>
+    if x + cw > width then
+      if pw h ≥ width then BIG else wrappedHeight pw width rest (pw h + cw) (h + 1)
+    else wrappedHeight pw width rest (x + cw) h
+
 /-- `get_height_for_line(lineno, width, get_line_prefix, slice_stop)` for the text `line` of that
     line; `pfx = some pw` when the window has a `get_line_prefix`. -/
 def heightForLine (W : Widths) (line : Text) (width : Nat) (pfx : Option (Nat → Nat))
     (stop : Option Nat) : Nat :=
   if width = 0 then BIG else
   let l := match stop with | none => line | some s => line.take s
-  let tw := textWidth W l
+  let tw := measWidth W l
+  if W.exact ∧ (l.map (measure W)).any (· != 1) then
+    let pw := match pfx with | some pw => pw | none => fun _ => 0
+    wrappedHeight pw width (l.map (measure W)) (pw 0) 1
+  else
   match pfx with
   | some pw => heightLoop pw width (tw + pw 0) (tw + pw 0) 1
   | none =>
@@ -210,8 +236,8 @@ def doScroll (beyond : Bool) (cur soStart soEnd cp ws cs : Int) : Int :=
 def scrollNoWrap (W : Widths) (line : Text) (lineCount cy cx : Nat) (width height : Int)
     (top bottom left right : Int) (p0 : Nat) (beyond : Bool) (s : Scroll) : Scroll :=
   let v := doScroll beyond s.vs top bottom cy height lineCount
-  let h := doScroll beyond s.hs left right (textWidth W (line.take cx)) (width - p0)
-            (max (textWidth W line : Int) (s.hs + width))
+  let h := doScroll beyond s.hs left right (measWidth W (line.take cx)) (width - p0)
+            (max (measWidth W line : Int) (s.hs + width))
   { vs := v, hs := h, vs2 := 0 }
 
 /-! ## Window._copy_body -/
@@ -303,7 +329,7 @@ def prefixHook (e : Env) (lineno : Nat) (st : CS) : CS :=
 /-- `while h_scroll > 0 and line: h_scroll -= get_cwidth(line[0]); skipped += 1; del line[:1]` -/
 def skipLoop (W : Widths) : Int → Text → Nat → Int × Text × Nat
   | h, [], k => (h, [], k)
-  | h, c :: cs, k => if h > 0 then skipLoop W (h - W.rw c) cs (k + 1) else (h, c :: cs, k)
+  | h, c :: cs, k => if h > 0 then skipLoop W (h - measure W c) cs (k + 1) else (h, c :: cs, k)
 
 /-- the horizontal-scroll part of `copy_line`: (remaining `h_scroll`, remaining line, `skipped`) -/
 def hskip (W : Widths) (hs : Int) (line : Text) : Int × Text × Nat :=
